@@ -297,7 +297,7 @@ def run(ctx):
              "own tag operations (set, set to None, delete, assignment "
              "through the generated accessor) that ends storing a dict or a "
              "list in a custom tag, at every validation level, the clone "
-             "made next does not hold the very same object", floor=40)
+             "made next does not hold the very same object", floor=120)
     f_set = ctx.anchor("Line.set", seg.find_method("set"))
     f_del = ctx.anchor("Line.delete", seg.find_method("delete"))
     f_def = ctx.anchor("Line._define_field_methods",
@@ -337,6 +337,13 @@ def run(ctx):
             if func.name == "_is_valid_custom_tagname":
                 return True
             return super().before_inline(ev, func, args, kwargs)
+
+        def method(self, ev, base, name, args, kwargs, node):
+            # the accessor's call of the field setter is interpreted, not
+            # replaced by the generic stand-in of LineHooks
+            if name == "_set_existing_field":
+                return NotImplemented
+            return super().method(ev, base, name, args, kwargs, node)
 
     OPS = ("set", "set-none", "delete", "accessor")
 
